@@ -531,6 +531,17 @@ func init() {
 		c.xkey(chn)
 		c.call(true, func() []interface{} { ch.Zero(); return []interface{}{ch.String()} })
 	})
+	add("bip32.ExtendedKey.Zero", func(c *memCtx) { // a family: zeroing one child must leave parent and siblings alone
+		par := c.xkey(someXKey(c.r, true))
+		c1, _ := par.Child(1)
+		c2, _ := par.Child(2)
+		c3, _ := par.Child(bip32.HardenedKeyStart + 1)
+		c1b, _ := par.Child(1)
+		c.xkey(c2)
+		c.xkey(c3)
+		c.xkey(c1b)
+		c.call(true, func() []interface{} { c1.Zero(); again, _ := par.Child(1); return []interface{}{c1.String(), again} })
+	})
 	add("bip32.NewMaster", func(c *memCtx) {
 		seed := c.bytes("seed", c.r.bytes(16+c.r.intn(49)))
 		c.call(true, func() []interface{} { k, e := bip32.NewMaster(seed, &chaincfg.MainNet); return []interface{}{k, e} })
